@@ -121,13 +121,13 @@ def metaKeys (m : Meta) : List String :=
   (if m.changeset ≠ 0 then ["changeset"] else []) ++ (if m.user ≠ "" then ["user"] else []) ++ (if m.uid ≠ 0 then ["uid"] else [])
 
 /-- `ctx.wayToLineString`: inline way-node coordinates first, else the node object; tainted if neither -/
-def wayToLineString (d : Data) (w : WayE) : List P × Bool :=
-  let step (acc : List P × Bool) (wn : WayNode) : List P × Bool :=
-    if wn.lon ≠ (0 : Int) ∨ wn.lat ≠ (0 : Int) then (acc.1 ++ [((wn.lon, wn.lat) : P)], acc.2)
-    else match (d.nodes.filter (fun n => n.id = wn.id)).getLast? with
-      | some n => (acc.1 ++ [((n.lon, n.lat) : P)], acc.2)
-      | none => (acc.1, true)
-  w.nodes.foldl step ([], false)
+def wlStep (d : Data) (acc : List P × Bool) (wn : WayNode) : List P × Bool :=
+  if wn.lon ≠ (0 : Int) ∨ wn.lat ≠ (0 : Int) then (acc.1 ++ [((wn.lon, wn.lat) : P)], acc.2)
+  else match (d.nodes.filter (fun n => n.id = wn.id)).getLast? with
+    | some n => (acc.1 ++ [((n.lon, n.lat) : P)], acc.2)
+    | none => (acc.1, true)
+
+def wayToLineString (d : Data) (w : WayE) : List P × Bool := w.nodes.foldl (wlStep d) ([], false)
 
 def findWay (d : Data) (id : Int) : Option WayE := (d.ways.filter (·.id = id)).getLast?
 
@@ -304,9 +304,9 @@ def nodeToFeature (o : Opts) (d : Data) (n : NodeE) : Option Feature :=
   else some { kind := "node", id := n.id, idSet := !o.noID, geom := .point (n.lon, n.lat), tags := tagMap n.tags, tainted := false,
               relations := relationsProp o d .node n.id, metaKeys := metaProp o n.md }
 
-/-- `Convert`: relation pass (routes and multipolygons/boundaries), way pass, node pass -/
-def convert (o : Opts) (isPolygon : WayE → Bool) (d : Data) : List Feature :=
-  let (relFeatures, skip) := d.relations.foldl (fun (st : List Feature × Skip) r =>
+/-- the relation pass: route relations and multipolygons/boundaries, threading the skippable way ids -/
+def relationPass (o : Opts) (d : Data) : List Feature × Skip :=
+  d.relations.foldl (fun (st : List Feature × Skip) r =>
     let tt := findTag r.tags "type"
     if tt = "route" then
       let (f, s) := buildRoute o d r st.2
@@ -315,11 +315,56 @@ def convert (o : Opts) (isPolygon : WayE → Bool) (d : Data) : List Feature :=
       let (f, s) := buildPolygon o d r st.2
       (st.1 ++ f.toList, s)
     else st) ([], [])
-  let wayFeatures := d.ways.filterMap fun w => if skip.contains w.id then none else wayToFeature o d isPolygon w
-  let wayMember (id : Int) : Bool := d.ways.any fun w => w.nodes.any (·.id = id)
-  let nodeFeatures := d.nodes.filterMap fun n =>
-    if wayMember n.id ∧ (membership o d .node n.id) = [] ∧ ¬ hasInterestingTags n.tags none then none
-    else nodeToFeature o d n
-  relFeatures ++ wayFeatures ++ nodeFeatures
+
+def isWayMember (d : Data) (id : Int) : Bool := d.ways.any fun w => w.nodes.any (·.id = id)
+
+/-- the way pass for one way -/
+def wayPass (o : Opts) (d : Data) (isPolygon : WayE → Bool) (skip : Skip) (w : WayE) : Option Feature :=
+  if skip.contains w.id then none else wayToFeature o d isPolygon w
+
+/-- the node pass for one node: skipped when it is only a vertex of some way -/
+def nodePass (o : Opts) (d : Data) (n : NodeE) : Option Feature :=
+  if isWayMember d n.id ∧ (membership o d .node n.id) = [] ∧ ¬ hasInterestingTags n.tags none then none
+  else nodeToFeature o d n
+
+/-- `Convert`: relation pass, way pass, node pass -/
+def convert (o : Opts) (isPolygon : WayE → Bool) (d : Data) : List Feature :=
+  let rp := relationPass o d
+  rp.1 ++ d.ways.filterMap (wayPass o d isPolygon rp.2) ++ d.nodes.filterMap (nodePass o d)
+
+end OsmVerif.Model.Convert
+
+namespace OsmVerif.Model.Convert
+open OsmVerif.Model.Geo
+
+/-- `mputil.Group` for annotated ways without pending updates: outer and inner segments with member indices -/
+def groupSegs (d : Data) (members : List Member) : List Seg × List Seg :=
+  members.zipIdx.foldl (fun (acc : List Seg × List Seg) (mi : Member × Nat) =>
+    let (m, i) := mi
+    if m.type ≠ .way then acc
+    else match findWay d m.ref with
+      | none => acc
+      | some w =>
+        let line : List P := w.nodes.map (fun wn => ((wn.lon, wn.lat) : P))
+        if line = [] then acc
+        else
+          let seg : Seg := Seg.mk' i m.orientation line
+          if m.role = "outer" then (acc.1 ++ [if seg.orientation = -1 then seg.rev else seg], acc.2)
+          else if m.role = "inner" then (acc.1, acc.2 ++ [if seg.orientation = 1 then seg.rev else seg])
+          else acc) ([], [])
+
+/-- `annotateOrientation`: the value written to each member of one joined group -/
+def annotateOrientation (ms : List Seg) (o : Int) : List (Nat × Int) :=
+  let factor : Int := if msOrientation ms ≠ o then -1 else 1
+  ms.map fun s => (s.idx, if s.reversed then -1 * factor * o else factor * o)
+
+/-- annotate/geo.go `orientation`: member orientations after annotation (members not in any group keep theirs) -/
+def orientations (d : Data) (members : List Member) : List Int :=
+  let (outer, inner) := groupSegs d members
+  let writes := (join outer).flatMap (fun ms => annotateOrientation ms 1) ++ (join inner).flatMap (fun ms => annotateOrientation ms (-1))
+  members.zipIdx.map fun (m, i) =>
+    match (writes.filter (·.1 = i)).getLast? with
+    | some (_, v) => v
+    | none => m.orientation
 
 end OsmVerif.Model.Convert
